@@ -3,7 +3,9 @@
 //! (`F<TAB>property<TAB>json`).
 mod common;
 mod strings;
+mod scope_oracle;
 mod suite_entity;
+mod suite_scope;
 mod suite_tree;
 mod tree;
 
@@ -24,6 +26,7 @@ fn main() {
     match suite {
         "entity" => suite_entity::run(seed, count, tier, &mut sink),
         "tree" => suite_tree::run(seed, count, tier, &mut sink),
+        "scope" => suite_scope::run(seed, count, tier, &mut sink),
         _ => {
             eprintln!("unknown suite {}", suite);
             std::process::exit(2);
